@@ -33,12 +33,17 @@ def octahedral():
 
 def transforms(seed):
     g = [rot((1, 2, 3), 0.7 + 0.13 * seed), rot((-2, 1, 0.5), 2.1 + 0.07 * seed), rot((0.3, -1, 2), 4.4 + 0.05 * seed)]
-    return [("identity", np.eye(3))] + [("oct%d" % i, M) for i, M in enumerate(octahedral())] + [("generic%d" % i, M) for i, M in enumerate(g)]
+    tiny = [rot((1, 2, 3), 2e-6), rot((0, 0, 1), 3e-5), rot((1, -1, 0), 1e-3)]
+    return [("identity", np.eye(3))] + [("oct%d" % i, M) for i, M in enumerate(octahedral())] + [("generic%d" % i, M) for i, M in enumerate(g)] \
+        + [("tiny%d" % i, M) for i, M in enumerate(tiny)]
 
 
 def noise(n, pattern):
     if pattern == "none":
         return np.zeros((n, 3))
+    if pattern == "tiny":
+        k = np.arange(n)[:, None] * np.array([1.0, 2.0, 3.0]) + np.array([0.3, 1.1, 2.7])
+        return 1e-7 * np.sin(5.0 * k)
     if pattern == "one":
         z = np.zeros((n, 3))
         z[n // 2] = (0.1, -0.05, 0.07)
@@ -119,9 +124,10 @@ def worker(part, chunk, seed):
         # deviation bound on the (transformation, reflection, noise) axes: full product for every 10th set, else
         # all transformations with default (no reflection, no noise) + all (reflection, noise) with two transformations
         if idx % 10 == 0:
-            combos = [(t, r, n) for t in range(len(tr)) for r in (False, True) for n in ("none", "one", "all")]
+            combos = [(t, r, n) for t in range(len(tr)) for r in (False, True) for n in ("none", "one", "all", "tiny")]
         else:
-            combos = [(t, False, "none") for t in range(len(tr))] + [(t, r, n) for t in (5, 26) for r in (False, True) for n in ("none", "one", "all")]
+            combos = [(t, False, "none") for t in range(len(tr))] + [(t, r, n) for t in (5, 26) for r in (False, True) for n in ("none", "one", "all")] \
+                + [(0, False, "tiny"), (28, False, "tiny")]
         for t, r, n in combos:
             case = {"points": [list(map(float, p)) for p in pts], "transform": t, "reflect": r, "noise": n, "seed": seed}
             check_one(part, A, tr[t][1], tr[t][0], r, n, case)
@@ -190,7 +196,7 @@ def run(ctx):
     if not ctx.thorough:
         # quick: all triples, every 3rd quadruple, all larger sets
         sets = [s for s in sets if s[0] != "lattice4" or s[2] % 3 == 0]
-    ctx.bounds = {"point_sets": len(sets), "transformations": 28, "tolerance": TOL}
+    ctx.bounds = {"point_sets": len(sets), "transformations": 31, "tolerance": TOL}
     ctx.rule = ("all C(27,3)=2925 triples%s of the lattice {-1,0,1}^3 + prefixes n=5..50 of two 4^3 enumerations; x 28 relating rotations x "
                 "{no reflection, reflection} x 3 noise patterns (full product for every 10th set, otherwise within one deviation of the default); "
                 "Dimer.transform_ab for 2 molecules x 28 rotations; distinct = point sets"
